@@ -219,6 +219,9 @@ def check(program: Program, run: Run) -> None:
         if not fd.info and fd.key.startswith("C08/ctx-rederive:") and fd.key.rsplit(":", 1)[1] in ("quote_char", "alias_quote_char"):
             run.finding("C07/quote-rederived:" + fd.key.split(":", 1)[1], "identifiers below this node are delimited by the quote character of the class the node was built with, not by the statement's: one statement mixes two identifier quote characters: " + fd.what,
                         where=fd.where, rule="R5 (inherited from C08/R1)")
+        if not fd.info and fd.key.startswith("C08/entry-context-drops:") and (":quote_char:" in fd.key or ":alias_quote_char:" in fd.key):
+            run.finding("C07/quote-not-delivered:" + fd.key.split(":", 1)[1], "aliases/identifiers of the operands of a top-level set operation are delimited differently from the rest of the statement: " + fd.what,
+                        where=fd.where, rule="R5 (inherited from C08/R1c)")
         if not fd.info and fd.key.startswith("C08/ctx-bypass:"):
             run.finding("C07/quote-context-bypass:" + fd.key.split(":", 1)[1], "names inside this child are written with the default context's quote character and without qualifier: " + fd.what,
                         where=fd.where, rule="R5 (inherited from C08)")
